@@ -192,6 +192,17 @@ class ParallelSourcePlugin(Plugin):
 
     def cleanup(self, wait_for):
         print(f"{self.__class__.__name__} terminated. Waiting for {len(wait_for)} pending futures.")
+        try:
+            # The inlined savers wrote inside the computations we are waiting for:
+            # if one of those failed, the savers must not be closed as complete
+            for f in wait_for:
+                f.result()
+        except Exception:
+            for savers in self.sub_savers.values():
+                for s in savers:
+                    s.close(wait_for=wait_for)
+            super().cleanup(wait_for)
+            raise
         for savers in self.sub_savers.values():
             for s in savers:
                 s.close(wait_for=wait_for)
